@@ -102,6 +102,7 @@ def r3_orderings(ctx, F):
 def run(ctx):
     F = ctx.facts("core")
     r4_interior(ctx, F, prop_rule="C20.R1")
+    r4_array(ctx, F, rule="C20.R1")
     # Send impls too: list them
     us = [i for i in F.impls if i["safety"].startswith("Unsafe") and re.search(r"marker::(Send|Sync)$", i["trait"])
           and i["crate"] in CRATES]
